@@ -156,6 +156,50 @@ Theorem C16_utxos_node_roundtrip : forall l, Forall (fun u => u_sats u <= max_mo
 Proof. exact utxos_node_roundtrip. Qed.
 Print Assumptions C16_utxos_node_roundtrip.
 
+(** ** any script bytes: the node dialect without an oracle.  The node marshaller runs bscript's inspection code
+    (ToASM, Addresses, ScriptType - and through them IsP2PKH / IsP2PK / IsData / IsMultiSigOut / IsP2PKHInscription /
+    PublicKeyHash / DecodeParts) on every locking script and ToASM on every unlocking script.  [script_info_bscript]
+    (model/JsonScripts.v) is the model of that code (model/Classify.v, model/Asm.v: every index and slice expression a
+    checked primitive yielding Panic; the subject of C14's theorems) in the place of the oracle.  For EVERY byte string
+    it has an answer - never a panic, never an error - so node marshalling of a transaction / a list / an output
+    the library can build or decode succeeds and round-trips whatever the scripts hold: multisig-shaped scripts that
+    declare more keys than they carry, inscription-shaped scripts shorter than a P2PKH prefix, truncated pushes. *)
+From GoBT Require Import lib.Checked model.Asm model.Classify model.JsonScripts proofs.JsonScriptsProofs.
+Theorem C16_script_info_total : forall s, exists i, script_info_bscript s = JOk i.
+Proof. exact script_info_bscript_ok. Qed.
+Print Assumptions C16_script_info_total.
+Theorem C16_script_info_is_bscript : forall s asm n ty, script_info_bscript s = JOk (asm, n, ty) ->
+  to_asm s = Ok asm /\ (exists a, addresses s = Ok a /\ n = lenNg a) /\ exists t, script_type s = Ok t /\ ty = stype_name t.
+Proof. exact script_info_bscript_spec. Qed.
+Print Assumptions C16_script_info_is_bscript.
+Theorem C16_node_marshal_any_script_no_panic : forall g, outs_set g -> node_marshal_tx script_info_bscript g <> JPanic.
+Proof. exact node_marshal_tx_any_script_no_panic. Qed.
+Print Assumptions C16_node_marshal_any_script_no_panic.
+Theorem C16_node_tx_json_roundtrip_any_script : forall prev g, wf_gtx g -> ~ ambiguous (plain_tx g) ->
+  exists j, node_marshal_tx script_info_bscript g = JOk j /\ node_unmarshal_tx prev j = JOk (tx_back g).
+Proof. exact node_tx_json_roundtrip_any_script. Qed.
+Print Assumptions C16_node_tx_json_roundtrip_any_script.
+Theorem C16_node_txs_json_roundtrip_any_script : forall l, Forall wf_gtx l -> Forall (fun g => ~ ambiguous (plain_tx g)) l ->
+  exists js, node_marshal_txs script_info_bscript l = JOk js /\ node_unmarshal_txs js = JOk (map tx_back l).
+Proof. exact node_txs_json_roundtrip_any_script. Qed.
+Print Assumptions C16_node_txs_json_roundtrip_any_script.
+Theorem C16_node_output_roundtrip_any_script : forall o, wf_goutput o -> go_sats o <= max_money ->
+  exists j, node_marshal_output script_info_bscript o = JOk j /\
+            node_unmarshal_output (Some j) = JOk (mkGOutput (go_sats o) (Some (script_or_empty (go_lock o)))).
+Proof. exact node_output_roundtrip_any_script. Qed.
+Print Assumptions C16_node_output_roundtrip_any_script.
+(** non-vacuity / the shapes of this round: OP_1 <33-byte key> OP_16 OP_CHECKMULTISIG and OP_1 <key> OP_0
+    OP_CHECKMULTISIG are reported "multisig"; the 19-byte inscription-shaped script with a one-byte "hash" is
+    reported "pubkeyhashinscription" with no address *)
+Example C16_short_inscription_shape :
+  script_info_bscript [x76; xa9; x01; xaa; x88; xac; x00; x63; x03; x6f; x72; x64; x51; x01; x00; x00; x01; x00; x68] =
+  JOk ("OP_DUP OP_HASH160 OP_HASH256 OP_EQUALVERIFY OP_CHECKSIG OP_FALSE OP_IF 6f7264 OP_TRUE OP_FALSE OP_FALSE OP_FALSE OP_ENDIF"%string, 0, "pubkeyhashinscription"%string).
+Proof. vm_compute. reflexivity. Qed.
+Example C16_multisig_counts_disagree :
+  (exists asm, script_info_bscript ([x51; x21; x02] ++ repeat x07 32 ++ [x60; xae]) = JOk (asm, 0, "multisig"%string)) /\
+  (exists asm, script_info_bscript ([x51; x21; x02] ++ repeat x07 32 ++ [x00; xae]) = JOk (asm, 0, "multisig"%string)).
+Proof. split; eexists; vm_compute; reflexivity. Qed.
+
 (** ** the hypothesis [~ ambiguous] cannot be dropped: NewTx() with LockTime 0xEF000000 marshals
     in both dialects to a document that does not unmarshal (a FINDING: C16's text does not exclude
     this shape; C01's does).  Full statement that is therefore false:
